@@ -63,7 +63,7 @@ def save_meta(i, m):
     json.dump(m, open(os.path.join(SEEDED, i, 'meta.json'), 'w'), indent=1, sort_keys=True)
 
 
-def cmd_import(wt, prop):
+def cmd_import(wt, prop, rnd=1):
     sd = os.path.join(wt, '_seed')
     meta_all = {}
     mp = os.path.join(sd, 'meta.json')
@@ -77,7 +77,7 @@ def cmd_import(wt, prop):
         df = os.path.join(sd, 'demo%s.py' % x)
         if not (os.path.exists(pf) and os.path.exists(df)):
             continue
-        i = '%s-%s' % (prop, x)
+        i = '%s-%s' % (prop, x if rnd == 1 else {'A': 'C', 'B': 'D'}[x])
         d = os.path.join(SEEDED, i)
         os.makedirs(d, exist_ok=True)
         shutil.copy(pf, os.path.join(d, 'patch.diff'))
@@ -85,7 +85,7 @@ def cmd_import(wt, prop):
         m = load_meta(i)
         a = meta_all.get(x, {}) if isinstance(meta_all, dict) else {}
         m.update({'id': i, 'property': prop, 'summary': a.get('summary'), 'needs': a.get('needs'),
-                  'function': a.get('function'), 'author': 'independent sub-agent given only the property text',
+                  'function': a.get('function'), 'round': rnd, 'author': 'independent sub-agent given only the property text',
                   'author_tests_run': a.get('tests_run')})
         save_meta(i, m)
         print('imported', i)
@@ -185,7 +185,7 @@ def main():
         print(__doc__)
         return
     if a[0] == 'import':
-        cmd_import(a[1], a[2])
+        cmd_import(a[1], a[2], int(a[a.index('--round') + 1]) if '--round' in a else 1)
     elif a[0] == 'verify':
         suite = '--suite' in a
         for i in (ids() if a[1] == 'all' else [a[1]]):
